@@ -160,7 +160,7 @@ PROPS = {
         technique="Lean 4 proof (induction over path components) + syscall-trace correspondence",
     ),
     "C12": dict(
-        modules=["Copia.Props.C12"], namespaces=["Copia.C12"], runner="bb", bb_module="bb_hub",
+        modules=["Copia.Props.C12", "Copia.Props.C12b"], namespaces=["Copia.C12"], runner="bb", bb_module="bb_hub",
         assumptions=_HUB_ASSUME + ["CBOR decoding of a frame body is a parameter of the model (table supplied by the harness from the real ciborium + wire.rs types); ciborium's own allocation/recursion limits are observed under ulimit -v, not proved"],
         trusted_base=_HUB_TB,
         level_text="Kernel-checked theorems for ALL input byte strings: every control-frame buffer ≤ MAX_FRAME; no reply and no tree change without a complete correct prologue; an error reply leaves the tree untouched and the loop "
